@@ -27,6 +27,18 @@ func genC10(m *M, histories, length int) {
 		for v := 0; v < ns; v++ {
 			m.putScalar(v, []string{"zero", "one", "two", "three", "small", "small", "minus_one", "random", "mont_near_const", "mont_window"}[m.rng.Intn(10)])
 		}
+		// SYSTEMATIC part (own random stream): one related scalar pair per history through the comparisons
+		m.withAux(func() {
+			ca, _, a, b := m.scalarPair()
+			m.class("history:scalar_pair_" + ca)
+			m.SSetInt(0, a)
+			m.SSetInt(1, b)
+			m.SEqual(0, 1)
+			m.SEqual(1, 0)
+			m.SLessOrEqual(0, 1)
+			m.SIsOne(0)
+			m.SIsZero(1)
+		})
 		fullMuls, pows := 0, 0
 		for i := 0; i < length; i++ {
 			r, a := m.rng.Intn(ne), m.rng.Intn(ne)
